@@ -147,6 +147,8 @@ def programs(tier: str):
     for kind in ("function", "method"):
         for executor in ("default", "explicit"):
             yield {"family": "reuse", "kind": kind, "executor": executor}
+    for how in ("copy", "second-instance"):
+        yield {"family": "method-copy", "how": how}
     for pair in (
         "traced-over-retry",
         "cache-over-retry",
@@ -255,10 +257,62 @@ def _reuse(program, ch: Chooser) -> Result:
     return Result(f"reuse/{program['kind']}", True, viols, {"results": [list(r) if isinstance(r, tuple) else r for r in results], "trace": trace}, steps=3)
 
 
+def _method_copy(program, ch: Chooser) -> Result:
+    """an asynchronous method is bound to the instance it is called on - also for a copy of an
+    instance on which it had been called before"""
+    import copy
+
+    viols: list[dict] = []
+    w = World(ch)
+    executor = GatedExecutor()
+    w.loop.set_default_executor(executor)
+    try:
+
+        class Account:
+            def __init__(self, name):
+                self.name = name
+
+            @asynchronous
+            def who(self):
+                return self
+
+        a = Account("a")
+        got: list = []
+
+        async def main():
+            got.append(await a.who())
+            b = copy.copy(a) if program["how"] == "copy" else Account("b")
+            b.name = "b"
+            got.append((await b.who(), b))
+            got.append(await a.who())
+
+        w.extra_actions = lambda: [
+            Action("release", f"w{rec['n']}", lambda rec=rec: executor.release(rec)) for rec in executor.pending if not rec["released"]
+        ]
+        t = w.task(main(), name="driver")
+        try:
+            w.run()
+        except Livelock:
+            pass
+        if not t.done() or t.exception() is not None or len(got) != 3:
+            viols.append(viol("transparent", f"method-copy/{program['how']}/fails", "three calls return", repr(t.exception() if t.done() else "pending")[:120]))
+        else:
+            if got[0] is not a or got[2] is not a:
+                viols.append(viol("arguments", f"method-copy/{program['how']}/original", "self is the original", "other"))
+            if got[1][0] is not got[1][1]:
+                viols.append(viol("arguments", f"method-copy/{program['how']}", "self is the instance the method was called on", f"self.name={getattr(got[1][0], 'name', None)!r}"))
+        return Result(f"method-copy/{program['how']}", True, viols, {"n": len(got), "trace": w.trace}, steps=3)
+    finally:
+        executor.drain()
+        w.close()
+
+
 def execute(program, ch: Chooser) -> Result:  # noqa: C901, PLR0912, PLR0915
     fam = program["family"]
     if fam == "meta":
         return _meta(program)
+    if fam == "method-copy":
+        return _method_copy(program, ch)
     if fam == "reuse":
         return _reuse(program, ch)
     _cap.records.clear()
